@@ -84,7 +84,80 @@ def _break_statement_rewritten():
     patch(pp.BackwardIterativeMinimizationVisitor)
 
 
+# --------------------------------------------------------------------------------------------------------------------
+# proposed repairs of defects of the unchanged tree (applied by monkeypatching; the self-test checks that the witness key goes away)
+# --------------------------------------------------------------------------------------------------------------------
+def _fix_remove_unused_keeps_asserted():
+    """TestCase.remove_unused_variables: a variable some assertion of the test refers to counts as used."""
+    import pynguin.testcase.testcase as tcm
+
+    def remove_unused_variables(self):
+        self._code_cache = None
+        asserted = {
+            a.source.split(".", 1)[0]
+            for st in self._statements
+            for a in st.assertions
+            if isinstance(getattr(a, "source", None), str)
+        }
+        alive_vars: set[str] = set()
+        for i in range(len(self._statements) - 1, -1, -1):
+            stmt = self._statements[i]
+            bv = stmt.bound_variable
+            if bv is not None:
+                if bv in alive_vars or bv in asserted:
+                    alive_vars.discard(bv)
+                    alive_vars.update(stmt.used_variables())
+                else:
+                    new_node = self._transform_assign_to_expr(stmt.node)
+                    if new_node is not stmt.node:
+                        self._statements[i] = tcm.Statement(node=new_node, bound_variable=None, bound_type=None,
+                                                            assertions=list(stmt.assertions), accessible=stmt.accessible, ml_info=stmt.ml_info)
+                    alive_vars.update(stmt.used_variables())
+            else:
+                alive_vars.update(stmt.used_variables())
+        self._rebuild_registry()
+
+    tcm.TestCase.remove_unused_variables = remove_unused_variables
+
+
+def _fix_combined_protection():
+    """CombinedMinimizationVisitor consults get_assertion_protected_variables like the iterative visitors do."""
+    import math
+
+    import pynguin.ga.postprocess as pp
+    import pynguin.ga.testcasechromosome as tcc
+
+    def _minimize_statements_across_test_suite(self, chromosome, original_coverage):
+        statements_changed = True
+        while statements_changed:
+            statements_changed = False
+            for test_case_idx, test_case_chrom in enumerate(chromosome.test_case_chromosomes):
+                test_case = test_case_chrom.test_case
+                protected = pp.get_assertion_protected_variables(test_case)
+                i = 0
+                while i < test_case.size():
+                    if test_case.get_statement(i).bound_variable in protected:
+                        i += 1
+                        continue
+                    test_suite_clone = chromosome.clone()
+                    clone_test_case = test_suite_clone.get_test_case_chromosome(test_case_idx).test_case
+                    clone_test_case.remove_statement_with_forward_dependencies(i)
+                    test_suite_clone.set_test_case_chromosome(test_case_idx, tcc.TestCaseChromosome(clone_test_case))
+                    minimized = [f.compute_coverage(test_suite_clone) for f in self._fitness_functions]
+                    if all(map(math.isclose, original_coverage, minimized)):
+                        removed = test_case.remove_statement_with_forward_dependencies(i)
+                        self._removed_statements += len(removed)
+                        chromosome.set_test_case_chromosome(test_case_idx, tcc.TestCaseChromosome(test_case))
+                        statements_changed = True
+                    else:
+                        i += 1
+
+    pp.CombinedMinimizationVisitor._minimize_statements_across_test_suite = _minimize_statements_across_test_suite
+
+
 BREAKS = {
+    "PROPOSED_FIX_remove-unused-keeps-asserted": _fix_remove_unused_keeps_asserted,
+    "PROPOSED_FIX_combined-protection": _fix_combined_protection,
     "wrong-direction": _break_wrong_direction,
     "loose-tolerance": _break_loose_tolerance,
     "protection-disabled": _break_protection_disabled,
